@@ -1,6 +1,10 @@
-import PortusModel.Lemmas.Accept
+import PortusModel.Lemmas.AcceptValue
 /-!
 # C20, acceptance (continued): the declaration pass, the `def` preamble, the main theorem
+
+`WellTyped` lets through plain assignments used as values inside expressions (`Typing.typeOfV`); the former
+check (`WellTypedStratified`) is its restriction to stratified programs (`wellTyped_eq`,
+`wellTyped_mono`).
 -/
 namespace Portus.Lang.Typing
 open Portus Portus.Lang
@@ -116,6 +120,19 @@ structure Start (Γ : Env) (sc : Scope) : Prop where
   inv : Inv Γ sc
   nodup : NamesNodup sc
   defOk : ∀ x r, sc.get x = some r → DefOk r
+  /-- room for the locals (`numLocals Γ = 0` at the start) -/
+  nle : numLocals Γ ≤ 6
+
+theorem numLocals_initEnv (ds : List Decl) : numLocals (initEnv ds) = 0 := by
+  unfold initEnv numLocals
+  rw [List.countP_append]
+  have h1 : List.countP (fun e => decide (e.2.1 = Kind.loc)) (declEnv ds) = 0 := by
+    rw [List.countP_eq_zero]
+    intro p hp
+    obtain ⟨d, _, rfl⟩ := List.mem_map.mp hp
+    simp
+  have h2 : List.countP (fun e => decide (e.2.1 = Kind.loc)) builtinEnv = 0 := builtinEnv_noLocals
+  rw [h1, h2]
 
 /-- **The declaration pass** of a program with well-formed declarations is accepted, and its scope
 agrees with the initial typing environment. -/
@@ -150,7 +167,8 @@ theorem declare_start (uid : Nat) {ds : List Decl} (hd : DeclsOk ds) :
     have := hd.all d hd'
     simp only [declOk, Bool.and_eq_true] at this
     exact this.1.1
-  refine ⟨sc0, h0, ⟨?_, ?_, ?_, ?_⟩, declareAll_namesNodup hd.nodup hfresh h0, ?_⟩
+  refine ⟨sc0, h0, ⟨?_, ?_, ?_, ?_⟩, declareAll_namesNodup hd.nodup hfresh h0, ?_,
+    by rw [numLocals_initEnv]; omega⟩
   · -- fwd
     intro x k τ hx
     unfold initEnv at hx
@@ -190,16 +208,7 @@ theorem declare_start (uid : Nat) {ds : List Decl} (hd : DeclsOk ds) :
           rw [hx] at this; cases this
         · exact lookup_declEnv_none hl d hd' e
   · -- no locals yet
-    rw [hnl]
-    unfold initEnv numLocals
-    rw [List.countP_append]
-    have h1 : List.countP (fun e => decide (e.2.1 = Kind.loc)) (declEnv ds) = 0 := by
-      rw [List.countP_eq_zero]
-      intro p hp
-      obtain ⟨d, _, rfl⟩ := List.mem_map.mp hp
-      simp
-    have h2 : List.countP (fun e => decide (e.2.1 = Kind.loc)) builtinEnv = 0 := builtinEnv_noLocals
-    rw [h1, h2]
+    rw [hnl, numLocals_initEnv]
   · -- the flag register
     unfold initEnv
     rw [lookup_append]
@@ -296,7 +305,7 @@ theorem applyUpdates_get_none {sc : Scope} {upd : List (Name × Nat)} {n : Name}
 
 theorem Start.applyUpdates {Γ : Env} {sc : Scope} {upd : List (Name × Nat)} (hs : Start Γ sc)
     (hu : UpdOk Γ upd) : Start Γ (applyUpdates sc upd) := by
-  refine ⟨⟨?_, ?_, ?_, hs.inv.flag⟩, (applyUpdates_reach sc upd).namesNodup hs.nodup, ?_⟩
+  refine ⟨⟨?_, ?_, ?_, hs.inv.flag⟩, (applyUpdates_reach sc upd).namesNodup hs.nodup, ?_, hs.nle⟩
   · intro x k τ hx
     obtain ⟨r, h1, h2, h3⟩ := hs.inv.fwd x k τ hx
     rcases applyUpdates_get_some (upd := upd) (show sc.get x = some r from h1) with e | ⟨v, hm, e⟩
@@ -324,10 +333,10 @@ theorem Start.applyUpdates {Γ : Env} {sc : Scope} {upd : List (Name × Nat)} (h
 /-! ## The main theorem -/
 
 theorem accepted_of_start {Γ : Env} {sc : Scope} {evs : List Event} (hs : Start Γ sc)
-    (hc : (checkEvents Γ evs).isSome = true) (hl : Frag.LitsOk evs = true) :
+    (hc : (checkEventsV Γ evs).isSome = true) (hl : Frag.LitsOk evs = true) :
     ∃ bin sc' img, compileProg evs sc = .ok (bin, sc') ∧ bin.serialize = .ok img := by
   obtain ⟨Γ', hc⟩ := Option.isSome_iff_exists.mp hc
-  obtain ⟨cp, e, _, hin⟩ := compile_events evs Γ sc (defInstrs sc.named).length hs.inv hc hl
+  obtain ⟨cp, e, _, hin⟩ := compile_eventsV evs Γ sc (defInstrs sc.named).length hs.inv hs.nle hc hl
   have hall : ∀ i ∈ defInstrs sc.named ++ cp.instrs, instrOk i = true := by
     intro i hi
     rcases List.mem_append.mp hi with h | h
@@ -359,7 +368,7 @@ theorem well_typed_accepted_upd (uid : Nat) (src : List Char) (ds : List Decl) (
     (hp : parseSource src = some (ds, evs)) (hwt : WellTyped ds evs = true) (hu : updOk ds upd = true) :
     ∃ bin sc img, compile uid src upd = .ok (bin, sc) ∧ bin.serialize = .ok img := by
   simp only [WellTyped, Bool.and_eq_true] at hwt
-  obtain ⟨⟨⟨hd, _⟩, hl⟩, hc⟩ := hwt
+  obtain ⟨⟨hd, hl⟩, hc⟩ := hwt
   obtain ⟨sc0, h0, hs⟩ := declare_start uid (declsOk_iff hd)
   rw [compile_eq upd hp h0]
   exact accepted_of_start (hs.applyUpdates (updOk_iff hu)) hc hl
@@ -384,13 +393,29 @@ theorem well_typed_image (uid : Nat) (src : List Char) (ds : List Decl) (evs : L
   rw [h2]
   rfl
 
-/-- the `Stratified` conjunct excludes nothing: it follows from the typing conjunct -/
-theorem wellTyped_eq (ds : List Decl) (evs : List Event) :
-    WellTyped ds evs = (declsOk ds && Frag.LitsOk evs && (checkEvents (initEnv ds) evs).isSome) := by
-  unfold WellTyped
+/-- in the former check the `Stratified` conjunct excludes nothing: it follows from the typing conjunct -/
+theorem wellTypedStratified_eq (ds : List Decl) (evs : List Event) :
+    WellTypedStratified ds evs =
+      (declsOk ds && Frag.LitsOk evs && (checkEvents (initEnv ds) evs).isSome) := by
+  unfold WellTypedStratified
   cases h : checkEvents (initEnv ds) evs with
   | none => simp
   | some Γ' => rw [checkEvents_stratified evs _ h]; simp
+
+/-- **characterisation of the former check**: it is the extended check restricted to stratified
+programs (no assignment inside an expression) -/
+theorem wellTyped_eq (ds : List Decl) (evs : List Event) :
+    WellTypedStratified ds evs = (WellTyped ds evs && Frag.Stratified evs) := by
+  unfold WellTypedStratified WellTyped
+  cases hs : Frag.Stratified evs with
+  | false => simp
+  | true => rw [checkEventsV_stratified evs hs]; simp
+
+/-- every program that passed the former check passes the extended one -/
+theorem wellTyped_mono (ds : List Decl) (evs : List Event) (h : WellTypedStratified ds evs = true) :
+    WellTyped ds evs = true := by
+  rw [wellTyped_eq, Bool.and_eq_true] at h
+  exact h.1
 
 /-- the check applied to source text: `none` = does not parse -/
 def wtSrc (src : List Char) : Option Bool := (parseSource src).map fun p => WellTyped p.1 p.2
@@ -456,6 +481,72 @@ theorem richSrc_accepted : ∃ bin sc img, compile 0 richSrc [] = .ok (bin, sc) 
 #guard ((parseSource richSrc).map fun p => updOk p.1 [("Report.loss".toList, 1)]) == some false
 #guard ((parseSource richSrc).map fun p => updOk p.1 [("cap".toList, 2147483648)]) == some false
 
+/-! ### Assignments used as values (kernel-checked) -/
+
+/-- the former check applied to source text -/
+def wtSrcStratified (src : List Char) : Option Bool :=
+  (parseSource src).map fun p => WellTypedStratified p.1 p.2
+
+/-- membership in the fragment of the semantic theorem C01 (`Frag.InOracle`: hazard-free nestings) -/
+def inOracleSrc (src : List Char) : Option Bool := (parseSource src).map fun p => Frag.InOracle p.2
+
+/-- a plain assignment used as a value inside an expression (to a declared variable) -/
+def nestedSrc : List Char :=
+  ("(def (Report (out 0) (saved 0)))" ++
+   "(when true (:= Report.out (+ (* Ack.bytes_acked 2) (+ (:= Report.saved Ack.packets_acked) 1))))").toList
+
+/-- it is well typed (the former check refused it) … -/
+theorem nestedSrc_wellTyped : wtSrc nestedSrc = some true ∧ wtSrcStratified nestedSrc = some false := by
+  decide +kernel
+
+/-- … hence accepted, by the theorem -/
+theorem nestedSrc_accepted : ∃ bin sc img, compile 0 nestedSrc [] = .ok (bin, sc) ∧ bin.serialize = .ok img :=
+  wtSrc_accepted 0 _ nestedSrc_wellTyped.1
+
+/-- a nested assignment that creates a **new local** (`x`, of type Num, read by the next statement
+and by the condition of the next event) -/
+def nestedLocalSrc : List Char :=
+  ("(def (Report (out 0)))" ++
+   "(when true (:= Report.out (+ (:= x 1) 2)) (:= Report.out (+ x 1)))" ++
+   "(when (> x 0) (report))").toList
+
+theorem nestedLocalSrc_wellTyped : wtSrc nestedLocalSrc = some true := by decide +kernel
+
+theorem nestedLocalSrc_accepted :
+    ∃ bin sc img, compile 0 nestedLocalSrc [] = .ok (bin, sc) ∧ bin.serialize = .ok img :=
+  wtSrc_accepted 0 _ nestedLocalSrc_wellTyped
+
+/-- **hazardous nestings are accepted**: both operands of `+` assign the variable the statement
+assigns (outside `Frag.InOracle`, the fragment of the semantic theorem); first with a declared
+variable, then with a local that the *inner* assignment creates and the outer one re-types. No hazard
+condition is needed for acceptance, and `WellTyped` has none. -/
+def hazardSrc : List Char :=
+  ("(def (Report (x 0)))" ++
+   "(when true (:= Report.x (+ (:= Report.x 1) (:= Report.x 2))) (:= y (+ (:= y 1) (:= y 2))))").toList
+
+theorem hazardSrc_wellTyped : wtSrc hazardSrc = some true ∧ inOracleSrc hazardSrc = some false := by
+  decide +kernel
+
+theorem hazardSrc_accepted : ∃ bin sc img, compile 0 hazardSrc [] = .ok (bin, sc) ∧ bin.serialize = .ok img :=
+  wtSrc_accepted 0 _ hazardSrc_wellTyped.1
+
+-- tests (`#guard`): more nestings the check lets through
+#guard wtSrc "(def (Report (b 0))) (when true (:= a (:= b2 1)) (:= Report.b (+ a b2)))".toList == some true
+#guard wtSrc "(def (Report (b 0))) (when true (:= Report.b (if (> (:= x 1) 0) x)))".toList == some true
+#guard wtSrc "(def (Report (b 0))) (when true (:= Report.b (ewma (:= x 1) (:= y (+ x 2)))))".toList == some true
+#guard wtSrc "(def (Report (b 0))) (when true (:= c (+ (:= Cwnd 5) 1)))".toList == some true
+#guard wtSrc "(def (Report (b 0))) (when true (:= x (+ (:= x 1) x)))".toList == some true
+-- six locals are fine, the seventh is not, wherever it is created
+#guard wtSrc ("(def (Report (b 0))) (when true " ++
+  "(:= a (+ (:= l1 1) (+ (:= l2 1) (+ (:= l3 1) (+ (:= l4 1) (:= l5 1)))))))").toList == some true
+#guard wtSrc ("(def (Report (b 0))) (when true " ++
+  "(:= a (+ (:= l1 1) (+ (:= l2 1) (+ (:= l3 1) (+ (:= l4 1) (+ (:= l5 1) (:= l6 1))))))))").toList == some false
+-- literals inside nested assignments are checked; primitives stay read-only; a name must be
+-- assigned before it is read, also inside one expression (operands left to right)
+#guard wtSrc "(def (Report (b 0))) (when true (:= Report.b (+ (:= x 2147483648) 0)))".toList == some false
+#guard wtSrc "(def (Report (b 0))) (when true (:= c (+ (:= Ack.now 5) 1)))".toList == some false
+#guard wtSrc "(def (Report (b 0))) (when true (:= x (+ x (:= x 1))))".toList == some false
+
 /-! ### Ill-typed programs are refused by the check (and, here, by the compiler or the encoder) -/
 
 /-- a Bool operand of `+` -/
@@ -493,6 +584,12 @@ verdict, kernel-checked. -/
 
 def rejected (src : String) : Bool := compile 7 src.toList [] == .err
 
+/-- compiled *and* serialized (used in tests only; acceptance claims are made through the theorem) -/
+def accepted (src : String) : Bool :=
+  match compileAndSerialize 7 src.toList [] with
+  | .ok _ => true
+  | _ => false
+
 /-- **`noBareBoolCondition`.** A `when` whose condition is a Bool *variable* (declared, local or the
 primitive `Flow.was_timeout`) is rejected by `compile_flag` (the flag block must end in a temporary
 or be a literal); the same condition written as an operator node is accepted. -/
@@ -516,6 +613,40 @@ theorem finding_guarded_target :
 
 #guard wtSrc "(def (Report (acked 0))) (when true (:= Rate (ewma 2 Flow.rate_outgoing)))".toList == some false
 #guard wtSrc "(def (Report (acked 0))) (when true (:= Report.acked (ewma 2 Flow.rate_outgoing)))".toList == some true
+
+/-- **`knownTargetType`.** The value of `(:= x e)` inside an expression, `x` already known, has the
+type *recorded for `x`*, not the type of `e` (the compiler's value of a bind is the register of the
+target, and it does not compare the two types). With `n : Num`, the statement `(:= Report.n true)` is
+accepted, but its value is not a Bool: `(&& (:= Report.n true) true)` is rejected – and
+`(+ (:= Report.n true) 1)` is accepted. The check mirrors both. -/
+theorem finding_known_target_type :
+    rejected "(def (Report (n 0))) (when true (:= b (&& (:= Report.n true) true)))" = true ∧
+    wtSrc "(def (Report (n 0))) (when true (:= b (&& (:= Report.n true) true)))".toList = some false ∧
+    wtSrc "(def (Report (n 0))) (when true (:= b (+ (:= Report.n true) 1)))".toList = some true := by
+  decide +kernel
+
+#guard accepted "(def (Report (n 0))) (when true (:= b (+ (:= Report.n true) 1)))"
+
+/-- the rule `setTy` of `bindValue` is forced by the compiler: in `(:= x (> (:= x 1) 0))` the inner
+assignment creates the local `x : Num`, the outer one re-types *the same local* to Bool; afterwards
+`(+ x 1)` is rejected and `(&& x true)` accepted. -/
+theorem nested_retyping :
+    rejected "(def (Report (a 0))) (when true (:= x (> (:= x 1) 0)) (:= y (+ x 1)))" = true ∧
+    wtSrc "(def (Report (a 0))) (when true (:= x (> (:= x 1) 0)) (:= y (+ x 1)))".toList = some false ∧
+    wtSrc "(def (Report (a 0))) (when true (:= x (> (:= x 1) 0)) (:= y (&& x true)))".toList = some true := by
+  decide +kernel
+
+#guard accepted "(def (Report (a 0))) (when true (:= x (> (:= x 1) 0)) (:= y (&& x true)))"
+
+/- not restrictions of the compiler but of the check (it is sufficient, not necessary): the compiler
+also accepts a conditional / ewma assignment used as a value, an assignment inside a `when` condition,
+and the copy of a never-assigned name; the check refuses them. -/
+#guard wtSrc "(def (Report (b 0))) (when true (:= Report.b (+ (:= Report.b (if true 1)) 1)))".toList == some false
+#guard accepted "(def (Report (b 0))) (when true (:= Report.b (+ (:= Report.b (if true 1)) 1)))"
+#guard wtSrc "(def (Report (b 0))) (when (> (:= x 1) 0) (report))".toList == some false
+#guard accepted "(def (Report (b 0))) (when (> (:= x 1) 0) (report))"
+#guard wtSrc "(def (Report (b 0))) (when true (:= x (:= y x)))".toList == some false
+#guard accepted "(def (Report (b 0))) (when true (:= x (:= y x)))"
 
 /-- **`notReadOnly`** (expected): primitives cannot be assigned. -/
 theorem primitives_read_only : rejected "(def (Report (acked 0))) (when true (:= Ack.now 1))" = true := by
